@@ -184,7 +184,7 @@ func GetToken(input string, val *ValType, pos *int) int {
 			show = "strconv.Quote(v.st)"
 		}
 	}
-	sb.WriteString("\nfunc vhShow(v *ValType) string {\n\t_ = strconv.Itoa\n\treturn " + show + "\n}\n")
+	sb.WriteString("\nfunc vhShow(v *ValType) string {\n\t_ = strconv.Itoa\n\ts := " + show + "\n\tif len(s) > 20000 {\n\t\ts = s[:20000] + \"...(cut)\"\n\t}\n\treturn s\n}\n")
 	call := "ParserInit()\n\tv := Parser(\"\")"
 	if v.Object {
 		call = "var vhc *Context\n\tif os.Getenv(\"VH_REINIT\") == \"1\" {\n\t\tif vhShared == nil {\n\t\t\tvhShared = MakeParserContext()\n\t\t} else {\n\t\t\tvhShared.ParserInit()\n\t\t}\n\t\tvhc = vhShared\n\t} else {\n\t\tvhc = MakeParserContext()\n\t}\n\tv := vhc.Parser(\"\")"
@@ -287,7 +287,7 @@ function GetToken(input :string, model :{ValType :ValType, pos :number}) :number
 			show = "JSON.stringify(v.st)"
 		}
 	}
-	sb.WriteString("\nfunction vhShow(v :ValType) :string {\n\treturn " + show + ";\n}\n")
+	sb.WriteString("\nfunction vhShow(v :ValType) :string {\n\tlet s :string = " + show + ";\n\tif (s.length > 20000) { s = s.substring(0, 20000) + \"...(cut)\"; }\n\treturn s;\n}\n")
 	sb.WriteString(`
 function vhRunOne(toks :number[]) :string[] {
 	vhToks = toks;
